@@ -59,18 +59,28 @@ class Dev:
         if r.returncode != 0:
             raise RuntimeError("losetup failed: " + r.stderr.decode())
         self.path = r.stdout.decode().strip()
+        self.rdev = os.stat(self.path).st_rdev
+
+    def restore_node(self):
+        # a command under test that unlinks its output removes the device node: put it back
+        if not os.path.exists(self.path):
+            import stat as _stat
+            os.mknod(self.path, 0o660 | _stat.S_IFBLK, self.rdev)
 
     def fill(self, content):
+        self.restore_node()
         with open(self.path, "r+b") as f:
             f.write((content or b"") + b"\0" * (4096 - len(content or b"")))
             f.flush()
             os.fsync(f.fileno())
 
     def read(self, n):
+        self.restore_node()
         with open(self.path, "rb") as f:
             return f.read(n)
 
     def close(self):
+        self.restore_node()
         sh(["losetup", "-d", self.path])
 
 
